@@ -134,7 +134,18 @@ class CoroutineProcessor(Processor):
         if state != CoroutineState.TERMINATED:
             raise ValueError('Cannot start the same generator twice')
 
-        self._active_queue.append(generator)
+        if generator in self._kill_queue:
+            # Restarted before the pending kill was applied: cancel it.
+            # An active coroutine keeps its place in the active queue,
+            # the wait record of a paused one is invalidated.
+            self._kill_queue.discard(generator)
+            waiting_gen = self._generators[generator]
+            if waiting_gen is not None:
+                waiting_gen.generator = None
+                self._active_queue.append(generator)
+        else:
+            self._active_queue.append(generator)
+
         self._generators[generator] = None
         promise = CoroutinePromise(generator, self)
         self._promises[generator] = promise
@@ -200,6 +211,10 @@ class CoroutineProcessor(Processor):
             while (len(self._wait_queue)
                    and self._timer >= self._wait_queue[0].wait_time):
                 gen = heapq.heappop(self._wait_queue).generator
+
+                # Invalidated record (coroutine restarted in the meantime)
+                if gen is None:
+                    continue
 
                 # If a kill was pending, just drop the coroutine
                 if gen in self._kill_queue:
